@@ -323,6 +323,7 @@ func (x *c01) operatorMatrix() {
 		{"range", "{% for i in (a..b) limit: 3 %}{{ i }}{% endfor %}", true}, {"rangejoin", "{{ (a..b) | first }}", true},
 		{"index", "{{ a[b] }}", true}, {"indexprop", "{{ a[b].size }}{{ a[b][b] }}", true},
 		{"props", "{{ a.size }}{{ a.first }}{{ a.last }}{{ a.absent }}{{ a.k }}{{ a.Name }}{{ a.private }}{{ a.tagged }}{{ a.Nested.Items[0] }}{{ a.M.k }}{{ a.A }}{{ a.B }}{{ a.Count }}", false},
+		{"methods", "{{ a.Zone }}{{ a.ISOWeek }}{{ a.MarshalJSON }}{{ a.MarshalText }}{{ a.Year }}{{ a.String }}{{ a.Unix }}{{ a.Date }}{{ a.Clock }}{{ a.Upper }}{{ a.Slug }}{{ a.Error }}{{ a.Len }}{{ a.ToLiquid }}", false},
 		{"print", "{{ a }}", false}, {"for", "{% for x in a %}{{ x }}{{ forloop.index }}{% else %}E{% endfor %}", false},
 		{"forlimit", "{% for x in a limit: b %}{{ x }}{% endfor %}", true}, {"foroffset", "{% for x in a reversed offset: b %}{{ x[0] }}{% endfor %}", true},
 		{"tablerow", "{% tablerow x in a cols: b %}{{ x }}{% endtablerow %}", true}, {"tablerow1", "{% tablerow x in a %}{{ x }}{% endtablerow %}", false},
@@ -412,7 +413,8 @@ func (x *c01) hostile() {
 	// ranges far too large to materialise: array filters must refuse them (an error), never panic; lazy loops with a limit are fine
 	for _, s := range []string{"{{ (1..9223372036854775807) | first }}", "{{ (0..4294967296) | join: ',' }}", "{{ (-9223372036854775807..9223372036854775807) | size }}",
 		"{% for i in (1..9223372036854775807) limit: 2 %}{{ i }}{% endfor %}", "{{ (1..9223372036854775807) | reverse | first }}", "{% assign r = (5..9007199254740993) %}{{ r | last }}{{ r | sort | first }}",
-		"{% tablerow i in (1..4611686018427387904) limit: 1 %}{{ i }}{% endtablerow %}", "{{ (1..4294967296) | concat: a | size }}", "{{ (1..9223372036854775807) | map: 'x' }}{{ (1..9223372036854775807) | uniq }}"} {
+		"{% tablerow i in (1..4611686018427387904) limit: 1 %}{{ i }}{% endtablerow %}", "{{ (1..4294967296) | concat: a | size }}", "{{ (1..9223372036854775807) | map: 'x' }}{{ (1..9223372036854775807) | uniq }}",
+		"{{ (1..2147483647) | first }}", "{{ (-5..50000000) | size }}|{{ (1..50000000) | last }}", "{% assign r = (1..2147483640) %}{{ r | reverse | first }}{% for i in r limit: 1 %}{{ i }}{% endfor %}"} {
 		inject = append(inject, s)
 	}
 	// include cycles: must end in an error, not in stack exhaustion
